@@ -77,13 +77,26 @@ impl UpdateGenerator for MarkdownUpdateGenerator {
                     language,
                     config_lines,
                     comment_lines,
-                    code_lines: _,
+                    code_lines,
                 } => {
                     let config = if config_lines.is_empty() {
                         "".into()
                     } else {
                         format!(" {{{}}}", config_lines.join_newline().trim_start())
                     };
+
+                    // a block without shell expression holds no testcase, hence
+                    // there is no outcome for it: keep it as it is
+                    if !code_lines.iter().any(|(_, line)| line.starts_with("$ ")) {
+                        let code = code_lines.join_newline();
+                        let backticks = "`".repeat(max_backtick_size(&code) + 1);
+                        updated.push_str(&formatln!("{}{}{}", &backticks, &language, &config));
+                        for (_, line) in comment_lines.iter().chain(code_lines.iter()) {
+                            updated.push_str(&line.assure_newline());
+                        }
+                        updated.push_str(&backticks.assure_newline());
+                        continue;
+                    }
                     let generated = outcomes[testcase_index]
                         .generate_testcase()
                         .with_context(|| format!("testcase number {}", testcase_index + 1))?;
